@@ -43,6 +43,12 @@ def step(t, op):
         return guard(lambda: [bytes(x) for x in BR.get_trie_nodes(t.db, t.root_hash)])
     if k == "witness":
         return guard(lambda: [bytes(x) for x in BR.get_witness_for_key_prefix(t.db, t.root_hash, op[1])])
+    if k == "root_node":
+        return guard(lambda: bytes(t.root_node))
+    if k == "set_root_node":
+        def f():
+            t.root_node = op[1]
+        return guard(f)
     raise ValueError(op)
 
 
@@ -64,6 +70,10 @@ def cop(op):
         return "BState"
     if k == "trie_nodes":
         return "BTrieNodes"
+    if k == "root_node":
+        return "BRootNode"
+    if k == "set_root_node":
+        return f"BSetRootNode {cb(op[1])}"
     if k == "at_root":
         return f"BAtRoot {cb(op[1])} {cb(op[2])}"
     if k == "branch_valid":
